@@ -5,3 +5,4 @@ import HoloModel.Fourier
 import HoloModel.ImgProc
 import HoloModel.Prior
 import HoloModel.Geometry
+import HoloModel.ImageFormation
